@@ -8,6 +8,11 @@ C = {
  "C04": ("exploration", "complete breadth-first exploration of the real seat manager's reachable states for small seat counts (exhaustive: true in evidence) plus random walks to 10 seats; every rotation judged by an independent dead-button reference", "Active set after rotation taken as observed; collapsed-ring corner judged like the from-heads-up case (see DESIGN)", "runtime state-space exploration through the real code + reference oracle"),
  "C05": ("exploration", "held on the generated tables of this run: eligibility tracker over consecutive opened snapshots", "button reference ambiguous across heads-up transitions: judged only where both references agree; add-on to busted player not judged at the next open", "runtime monitoring: trace checker over opened snapshots"),
  "C06": ("exploration", "held on the generated default-rule tables of this run: independent label / next-BB reference on every opened and settled snapshot", "dealt-in flags and button seats taken as given", "runtime monitoring: reference-model oracle on snapshots"),
+ "C07": ("exploration", "held on the generated multi-hand tables and negative scenarios of this run: online life-cycle trace checker on every notification, field resets at quiescent points, no hand after close / release / break / unset blinds / repeated set-up", "'no hand opens' decided when the gate callback has returned; continue-delay variants wait 2.5 s (can only hide, not create, a violation)", "runtime monitoring: online trace-specification checker + negative scenarios on gate events"),
+ "C08": ("exploration", "held on the churny tables of this run: pause iff break or too few players with chips at every continue decision; with two seated-in players with chips the next hand opened after the signals in every case (bounded progress on logical gate events)", "liveness restated as bounded progress: refusal = gate callback returned / open error without a hand; nothing within 42 s is inconclusive", "runtime monitoring: decision oracle + bounded-progress oracle on logical events"),
+ "C12": ("exploration", "held on the generated tables of this run: hand-engine options, every playing/settled snapshot and the published hand level equal the level in force when the driver let the hand open; break handling incl. created-on-break and updates inside the continue interval", "updates issued at quiescent points only (no concurrent level clock, see DESIGN)", "runtime monitoring: driver-known level vs snapshots and backend options"),
+ "C14": ("exploration", "held on the generated hands of this run: counters equal the driver's count of accepted actions, fold flag/round, did=>chance for all nine pairs, at most one 3-bet holder, reset between hands", "raise counter bounded, not exactly predicted", "runtime monitoring: shadow counters vs settled snapshots"),
+ "C15": ("exploration", "held on the generated turns of this run: deadline within the bracket [call time, delivery time] + action time, cleared at round close and between hands, extensions exact incl. repeated and after expiry", "wall-clock bracket in whole seconds around the engine's clock read", "runtime monitoring: bracketed time oracle on snapshots and extension calls"),
  "C16": ("exploration", "held on the concurrent storms of this run: linearizability of recorded histories (porcupine), unforked backend chain, conservation, and zero race reports between sections serialised by the same lock", "histories <= 32-40 ops; baseline race noise outside the serialised sections only counted", "runtime monitoring under the race detector + offline linearizability checking of recorded histories"),
 }
 checks = []
